@@ -44,8 +44,8 @@ func TestVerifC18Sweep(t *testing.T) {
 		}
 		cases++
 	}
-	for _, ctxID := range [][]byte{nil, []byte("ctx")} {
-		for _, md := range [][]byte{nil, []byte("md")} {
+	for _, ctxID := range [][]byte{nil, []byte("ctx"), bytes.Repeat([]byte{7}, 64)} {
+		for _, md := range [][]byte{nil, []byte("md"), bytes.Repeat([]byte{9}, 300)} {
 			for _, addrs := range [][]string{nil, {"/ip4/127.0.0.1/tcp/9999"}, {"/ip4/127.0.0.1/tcp/9999", "/dns4/example.com/tcp/443"}} {
 				data, err := MakeIngestRequest(provID, provKey, mh, ctxID, md, addrs)
 				if err != nil {
